@@ -40,21 +40,42 @@ func (w *world) isLoadOfWriterField(v ssa.Value, f *types.Var) bool {
 
 // ruleGLB: GLB-1 on the GLB serialiser.
 func (w *world) ruleGLB(a *agg, stats *counters) {
-	var roots []*ssa.Function
-	if fn := w.c.P.Func(gltfRel, "Writer.WriteGLB"); fn != nil {
-		roots = append(roots, fn)
-	} else {
-		w.c.R.Failf("anchor %s.Writer.WriteGLB not found", gltfRel)
-	}
-	for _, fn := range w.ctl {
-		if strings.Contains(fn.Name(), "verifControlGLB") {
+	roots := w.glbFunctions(w.fns)
+	if len(roots) == 0 {
+		if fn := w.c.P.Func(gltfRel, "Writer.WriteGLB"); fn != nil {
 			roots = append(roots, fn)
+		} else {
+			w.c.R.Failf("anchor: no function in %s writes the GLB magic to an io.Writer, and Writer.WriteGLB does not exist", gltfRel)
 		}
 	}
+	roots = append(roots, w.glbFunctions(w.ctl)...)
 	for _, fn := range roots {
 		w.checkGLB(a, fn, stats)
 	}
 	w.c.R.Floor("GLB-1", 6)
+}
+
+// glbFunctions: functions that hand the GLB magic number to a byte sink (the GLB serialisers).
+func (w *world) glbFunctions(among []*ssa.Function) []*ssa.Function {
+	var out []*ssa.Function
+	for _, fn := range among {
+		found := false
+		ssau.AllInstrs(fn, func(in ssa.Instruction) {
+			call, ok := in.(ssa.CallInstruction)
+			if !ok || !isSinkPrimitive(call) {
+				return
+			}
+			for _, arg := range call.Common().Args {
+				if c, ok := ssau.ConstInt(stripConv(arg)); ok && c == glbMagic {
+					found = true
+				}
+			}
+		})
+		if found || strings.Contains(fn.Name(), "verifControlGLB") {
+			out = append(out, fn)
+		}
+	}
+	return out
 }
 
 func (w *world) checkGLB(a *agg, fn *ssa.Function, stats *counters) {
@@ -85,6 +106,35 @@ func (w *world) checkGLB(a *agg, fn *ssa.Function, stats *counters) {
 	if x.aborted != "" {
 		a.undecide("GLB-1", fname, P.Pos(fn.Pos()), "symbolic execution gave up: "+x.aborted)
 		return
+	}
+	// byte order of everything written by this function
+	endOK, endSeen := true, 0
+	var endPos string
+	ssau.AllInstrs(fn, func(in ssa.Instruction) {
+		call, ok := in.(*ssa.Call)
+		if !ok {
+			return
+		}
+		obj := ssau.CalleeObj(call)
+		switch {
+		case ssau.IsFunc(obj, bitlibPath, "NewWriter") && len(call.Common().Args) == 2:
+			endSeen++
+			if !isLittleEndian(call.Common().Args[1]) {
+				endOK, endPos = false, P.Pos(call.Pos())
+			}
+		case ssau.IsFunc(obj, "encoding/binary", "Write") && len(call.Common().Args) == 3:
+			endSeen++
+			if !isLittleEndian(call.Common().Args[1]) {
+				endOK, endPos = false, P.Pos(call.Pos())
+			}
+		}
+	})
+	if endSeen > 0 {
+		if endOK {
+			a.hold("GLB-1", fname+"#endianness", P.Pos(fn.Pos()), "all multi-byte fields little-endian")
+		} else {
+			a.violate("GLB-1", fname+"#endianness", endPos, "GLB header and chunk fields must be little-endian")
+		}
 	}
 	full := 0
 	for _, r := range res {
